@@ -12,6 +12,7 @@ mod c19;
 mod goscope;
 mod c13;
 mod c16;
+mod dce;
 mod probe;
 mod rng;
 mod sexp;
@@ -35,6 +36,7 @@ fn main() {
         "c19" => c19::main(&args),
         "c13" => c13::main(&args),
         "c16" => c16::main(&args),
+        "dce" => dce::main(&args),
         "probe" => probe::main(&args),
         other => {
             eprintln!("unknown subcommand {}", other);
